@@ -1,14 +1,16 @@
 (* ops_pgr.ml — C11 (roots), C12 (pow), C13 (gcd/lcm/Bezout/multiples): model (Roots.v, Pow.v,
    Gcd.v) and spec (SpecRoots.v, SpecPow.v, SpecGcd.v).
 
-   The models are parameterised by the big multiplication / division they call.  Until the
-   Mul / Div areas are merged these parameters are instantiated with the spec-level stand-ins
-   PgrLoop.spec_bmul / spec_bdivrem (the right-hand sides of Mul.umul_spec / Div.udivrem_spec); see docs/notes/pgr.md. *)
+   The models are parameterised by the big multiplication / division they call:
+     bdivrem = Div.udivrem Extracted.div   (the real division model, merged from the div area)
+     bmul    = PgrLoop.spec_bmul           (spec-level stand-in = right-hand side of
+                                            Mul.umul_spec, until the mul area is merged)
+   see docs/notes/pgr.md. *)
 open Io
 let v = Base.coq_val
 let enc = Base.enc
 let bmul = PgrLoop.spec_bmul
-let bdivrem = PgrLoop.spec_bdivrem
+let bdivrem = Div.udivrem Extracted.div
 let ap = Extracted.addsub
 let pp = Extracted.pgr_pow
 let pg = Extracted.pgr_gcd
